@@ -193,13 +193,16 @@ def strip_coq_comments(src):
     return "".join(out)
 
 
-def hygiene():
-    """grep gate over the whole development; returns list of offending 'file:word'."""
+def hygiene(only=None):
+    """grep gate over the development (restricted to the files in `only`, relative to coq/, when
+    given: the proof closure of one property); returns list of offending 'file:word'."""
     bad = []
     for root, _, files in os.walk(COQ):
         for f in files:
             if f.endswith(".v"):
                 p = os.path.join(root, f)
+                if only is not None and os.path.relpath(p, COQ) not in only:
+                    continue
                 src = strip_coq_comments(open(p).read())
                 for m in HYGIENE_RE.finditer(src):
                     bad.append("%s:%s" % (os.path.relpath(p, COQ), m.group(1)))
@@ -221,12 +224,34 @@ def regenerate():
     Returns list of (target, error) for translation failures (fail-closed)."""
     rc, out = sh("%s %s/tools/pyfrag.py --repo %s --out %s/Gen" % (sys.executable, VERIF, REPO, COQ), timeout=120)
     fails = []
+    files = {}
     for line in out.splitlines():
         if line.startswith("TRANSLATE-FAIL "):
             fails.append(line[len("TRANSLATE-FAIL "):])
+        elif line.startswith("PLUGIN-FILES "):
+            parts = line.split()
+            files[parts[1]] = parts[2:]
     if rc != 0 and not fails:
-        fails.append("pyfrag crashed: " + out[-500:])
+        fails.append("[core] pyfrag crashed: " + out[-500:])
+    PLUGIN_FILES.clear()
+    PLUGIN_FILES.update(files)
     return fails
+
+
+PLUGIN_FILES = {}
+
+
+def relevant_translate_failures(fails, closure):
+    """a translation failure breaks the properties whose proof closure contains a file of that plugin"""
+    gen = {os.path.basename(f) for f in closure if f.startswith("Gen/")}
+    out = []
+    for f in fails:
+        m = re.match(r"\[([^\]]+)\]", f)
+        plug = m.group(1) if m else "core"
+        pf = set(PLUGIN_FILES.get(plug, []))
+        if plug == "core" or not pf or (pf & gen):
+            out.append(f)
+    return out
 
 
 def make(targets=None, jobs=16, timeout=1700):
@@ -287,9 +312,10 @@ def prove(pid):
             if mrc != 0:
                 res["failed"].append("extract:modeld")
                 res["log"] += mout[-3000:]
-        res["hygiene"] = hygiene()
     # obligations: the named statements in the dependency closure of Props/<pid>.v
     closure = coq_closure("Props/%s.v" % pid)
+    run_closure = coq_closure("%s/Run.v" % pid)
+    res["hygiene"] = hygiene(set(closure) | set(run_closure))
     for f in closure:
         src = strip_coq_comments(open(os.path.join(COQ, f)).read())
         vo = os.path.join(COQ, f[:-2] + ".vo")
@@ -315,7 +341,7 @@ def prove(pid):
             axs = [l.strip().split(" ")[0] for l in b.splitlines()[1:] if l and not l.startswith(" " * 4)]
             if b == "missing" or any(a not in AXIOM_WHITELIST for a in axs):
                 res["failed"].append("assumptions:%s" % n)
-    for t in res["translate_failures"]:
+    for t in relevant_translate_failures(res["translate_failures"], closure):
         res["failed"].append("translate:%s" % t)
     for h in res["hygiene"]:
         res["failed"].append("hygiene:%s" % h)
